@@ -450,6 +450,18 @@ class Sign(Engine):
                 others.append(W.P2PKHBitcoinAddress.from_pubkey(K.CPubKey(o['pub'])))
         others.append(W.P2PKHBitcoinAddress.from_pubkey(K.CPubKey(EC.point_encode(k['Q'], not k['comp']))))
         others.append(W.P2PKHBitcoinAddress.from_bytes(hash160(b'other' + k['pub'])))
+        # addresses of another *kind* or another chain that carry the signer's own 20-byte key hash
+        h160 = hash160(k['pub'])
+        others.append(W.P2SHBitcoinAddress.from_bytes(h160))
+        others.append(W.P2WPKHBitcoinAddress.from_bytes(0, h160))
+        others.append(str(W.P2SHBitcoinAddress.from_bytes(h160)))
+        others.append(str(W.P2WPKHBitcoinAddress.from_bytes(0, h160)))
+        for oc in RC.CHAINS:
+            t = RC.TABLE[oc]
+            if t['p2pkh'] != RC.TABLE[self.chain]['p2pkh']:
+                others.append(RB58.check_encode(t['p2pkh'], h160))
+                break
+        others.append(RB58.check_encode(RC.TABLE[self.chain]['p2pkh'], h160[:19] + bytes([h160[19] ^ 1])))
         for oa in others:
             try:
                 ok = SM.VerifyMessage(oa, msg, sig64)
